@@ -6,7 +6,7 @@ CONSTANTS
   MaxCustom = 1
   EmitEvery = 1
   TreeIdx = {1, 2}
-  StratIdx = {1, 2}
+  StratIdx = {1, 2, 3}
   PlanSet <- Plans
   PresChoices <- Pres
   WantOther = FALSE
